@@ -59,11 +59,13 @@ CLAIMS = {
          "AST as a whole (node per element, notes, nested or/enum/allOf lists are built by the lexeme-driven loader state machines), "
          "collectASTRules order.",
          "5 C04", "weakest-precondition VCs over go/ssa + SMT"),
- "C02": ("Run-time panic freedom (index, slice, nil dereference, type assertion, make size, nil-map write, integer wrap and conversion) and "
-         "loop termination are proved for every function under contract that carries this property: the entry points without recover "
-         "NewNumber, GuessSchemaType, the regex schema (Check/Len/Pattern/GetAST) and the JSON document lexeme iterator (NextLexeme) are panic-free on every input (one recorded finding: "
-         "exponent magnitude above 2^40), plus ParseUint/ParseInt, text positions, error rendering. Not decided: the schema/enum/JSON scanners, "
-         "loader, compiler, checker, OpenAPI conversion (not under contract), stack depth, memory exhaustion.",
+ "C02": ("Run-time panic freedom (index, slice, nil dereference, type assertion, make size, nil-map write, integer wrap and conversion, negative Repeat) and "
+         "loop termination are proved for every function under a no_panic contract (C02 is the union of all of them, 180+ functions) and for the state methods of the enum "
+         "rule scanner: the entry points without recover - NewNumber, GuessSchemaType, json.Guess, the regex schema (Check/Len/Pattern/GetAST), the JSON document lexeme "
+         "iterator (NextLexeme: every panic of the scanner is an error value and is returned) - are panic-free on every input (one recorded finding: exponent magnitude above "
+         "2^40), plus the comparator, ParseUint/ParseInt, text positions, error rendering, the string decoder, the ordered maps, the constraint constructors and validators' "
+         "arithmetic, the pooled-buffer marshalers. Not decided: the schema scanner, loader, compiler, checker, OpenAPI conversion (not under contract), explicit error-valued "
+         "panics inside the enum rule scanner, recursion depth (stack overflow), memory exhaustion.",
          "5 C02", "weakest-precondition VCs over go/ssa + SMT (safety obligations on every operation, decreases clauses)"),
  "C12": ("Partial. For the JSON document scanner every one of the 39 state functions is proved to implement exactly its row of a reference pushdown transducer "
          "written from the RFC 8259 grammar (tools/jsondoc_rows.py: for every byte class and, after a complete value, every shape of the event stack, the next state, "
@@ -95,13 +97,17 @@ CLAIMS = {
          "value of the schema and of every registered type (checker/loader pipeline), regex and the built-in string formats (external libraries), "
          "or-alternatives, type references, nullable.",
          "5 C01", "weakest-precondition VCs over go/ssa + SMT; return/panic-exit assertions bound to the callee results"),
- "C17": ("Partial (item classification and decoding). constraint.NewEnumItem (inline enum) and rules/enum.newEnumItem (enum rule file) are proved to compute "
+ "C17": ("Partial. (1) Item classification and decoding: constraint.NewEnumItem (inline enum) and rules/enum.newEnumItem (enum rule file) are proved to compute "
          "the same function of the item text: blanks trimmed on both sides (TrimSpaces proved exact), JSON kind = literalTypeOf(text) via json.GuessData whose "
          "IsString/IsBoolean/IsNull/IsInteger/IsFloat/IsShortcut/JsonType are proved equal to text-level predicates (integer/float split by the parser's verdict and "
          "normal-form fraction length, the same predicates the schema-side guesser is proved against: lemma guessersAgree), value = decoded string for strings and the "
          "literal text otherwise; Enum.Append keeps items distinct as (kind, value) pairs and panics exactly on a member of its index; Enum.Validate accepts iff an "
-         "item equals the classified value. Not decided: the enum rule scanner's language (bracketed comma-separated list, annotations, no exponent numbers), "
-         "Values() order, and that `enum: @name` gives the same verdict and example as the inline list (loader pipeline).",
+         "item equals the classified value. (2) The grammar of rule files: 31 of the 35 state methods of the enum rule scanner are proved to implement exactly their row of a "
+         "reference transducer (tools/enum_rows.py: `[` scalar {`,` scalar} `]`, scalars = JSON strings, numbers WITHOUT exponent, true/false/null; blanks, new lines, `//` and "
+         "`/* */` annotations between tokens; next state, queued events, flags, saved state on annotation entry/exit, exact set of refused bytes); all 35 plus the queue/stack "
+         "operations, Next and processTail are proved free of run-time panics and to keep the representation invariant. Not decided: the value-ending composite of "
+         "stateEndValue/state0/state1/stateDot0 as a whole (its parts are), duplicate detection inside the scanner (validateValue is specified only by the invariant), the "
+         "length-computing mode, the composition of rows over a whole text, Values() order, and that `enum: @name` gives the same verdict and example as the inline list (loader).",
          "5 C17", "weakest-precondition VCs over go/ssa + SMT; definitional spec functions (numparses, normfrac, unq_str) tied to the verified parsers"),
  "C09": ("Partial. Proved: GuessSchemaType and json.GuessData classify a text by a function of the text alone (exact text-level specification, fixed test order, no map "
          "iteration); no format in errs.errorFormat uses a verb that prints structures or addresses (const-evaluated table obligation). Closed-list obligation: every "
